@@ -287,6 +287,11 @@ def judge_fn(ctx, job, res, resps):
                         ctx.hist["pysem:outside_model"] = ctx.hist.get("pysem:outside_model", 0) + 1
                     continue
                 ctx.hist["pysem:compared"] = ctx.hist.get("pysem:compared", 0) + 1
+                if b == "undef" and "call_known" in feats:
+                    # numpy scalar artefacts (np.abs(1) is an np.int64, and np.int64 ** -1 raises): CPython has no value
+                    # where the exact model has one; counted and rate-bounded at the end of the run
+                    ctx.hist["pysem:cpython_undefined_numpy"] = ctx.hist.get("pysem:cpython_undefined_numpy", 0) + 1
+                    continue
                 if a != b and not close(a, b):
                     ctx.add_drift(dict(case, point=res["points"][i]), {"cpython": b}, {"lean_callFn": a}, what + " python-semantics")
 
@@ -414,7 +419,7 @@ def run(ctx):
     setup(ctx)
     wd = workdir(ctx)
     try:
-        n = ctx.n(1600, 60000)
+        n = ctx.n(2400, 60000)
         if not ctx.proof_ok:
             n = max(n, 6000)
         done = 0
@@ -438,6 +443,10 @@ def run(ctx):
         if silent2 > 0.01 * max(1, ctx.evaluations):
             ctx.add_drift({"model_silent:real_refuses_more": silent2}, "noexpr", "expr",
                           "the real translator refuses functions the model translates too often to be sympy evaluation errors")
+        npu = ctx.hist.get("pysem:cpython_undefined_numpy", 0)
+        if npu > 0.002 * max(1, ctx.hist.get("pysem:compared", 0)):
+            ctx.add_drift({"pysem:cpython_undefined_numpy": npu}, "undef", "value",
+                          "the Lean Python semantics has values where CPython raises, too often to be numpy scalar artefacts")
         if not ctx.proof_ok or ctx.drift:
             ctx.notes.append("proof/correspondence broken: the run above is the failing-input search")
     finally:
